@@ -270,6 +270,23 @@ def Pn (x : Rat) (n : Nat) : Except Fault Rat :=
     | .error f => .error f
     | .ok s => .ok (s * (1 / 2 : Rat) ^ n)
 
+/-- `P_n(x, n)` for **any** order, expressed with one extra parameter: a rational `mu` with
+`mu * mu = x` (`x ** (0.5 * (n - 2k))` is then `mu ^ (n - 2k)`).  For even `n` it is `Pn (mu * mu) n`
+(lemma `PnMu_even`); for odd `n` the code computes `mu · (polynomial in mu²)` with `mu = sqrt(mu²) ≥ 0`. -/
+def PnMuLoop (mu : Rat) (n : Nat) : List Nat → Rat → Except Fault Rat
+  | [], s => .ok s
+  | k :: ks, s =>
+    match pnFactor n k with
+    | .error f => .error f
+    | .ok fac =>
+      let term := (fac : Rat) * mu ^ (n - 2 * k)
+      PnMuLoop mu n ks (if k % 2 = 0 then s + term else s - term)
+
+def PnMu (mu : Rat) (n : Nat) : Except Fault Rat :=
+  match PnMuLoop mu n (List.range (n / 2 + 1)) 0 with
+  | .error f => .error f
+  | .ok s => .ok (s * (1 / 2 : Rat) ^ n)
+
 /-- coefficient of `x^(n/2 - k)` in `P_n` as coded (before the common factor `0.5**n`) -/
 def pnCoeff (n k : Nat) : Except Fault Int :=
   match pnFactor n k with
@@ -421,6 +438,33 @@ def fullSumNat (n : Nat) (g : Int → Int → Int → Nat) : Nat :=
 def fullCount (n : Nat) (cls : Int → Int → Int → Option (Nat × Nat)) (b m : Nat) : Nat :=
   fullSumNat n (fun a bb c => if cls a bb c = some (b, m) then 1 else 0)
 
+/-- the mesh shape of a real-space mesh of size `n` (`fourier=False`: `bin_kmu` / `bin_kppi` read the
+planes `k < n // 2 + 1` of it and double the non-self-conjugate ones) -/
+def fullShape (n : Nat) : Shape := ⟨n, n, n⟩
+
+/-- the fold still coded in the sibling loops `expand_poles_to_3d`, `get_smoothing`, `get_delta_mu2`:
+`i if i < n1d // 2 else i - n1d` -/
+def foldOld (n i : Nat) : Int :=
+  if i < n / 2 then (i : Int) else (i : Int) - (n : Int)
+
+/-! ### `get_k_mu_edges` -/
+
+/-- `np.linspace(a, b, num)` over exact rationals: `a + i * (b - a) / (num - 1)`, last point `b` -/
+def linspace (a b : Rat) (num : Nat) : List Rat :=
+  match num with
+  | 0 => []
+  | 1 => [a]
+  | m + 2 => (List.range (m + 1)).map (fun (i : Nat) => a + (i : Rat) * ((b - a) / ((m + 1 : Nat) : Rat))) ++ [b]
+
+/-- `get_k_mu_edges(Lbox, k_max, kbins, mubins, logk=False)[0]` for an integer `kbins` -/
+def kEdgesLinear (kmax : Rat) (kbins : Nat) : List Rat := linspace 0 kmax (kbins + 1)
+
+/-- `get_k_mu_edges(…)[1]` for an integer `mubins` -/
+def muEdgesLinear (mubins : Nat) : List Rat := linspace 0 1 (mubins + 1)
+
+/-- `((kedges / dk) ** 2)` -/
+def sqEdges (dk : Rat) (e : List Rat) : List Rat := e.map (fun x => (x / dk) * (x / dk))
+
 /-- the mesh index of the conjugate mode along one axis: `-i mod n` -/
 def negIdx (n i : Nat) : Nat := (n - i) % n
 
@@ -454,6 +498,12 @@ def interleave0 : List Rat → List Rat
   | [a] => [a]
   | a :: t => a :: 0 :: interleave0 t
 
+/-- the coefficients at even positions: a polynomial in `mu` with only even powers, as a polynomial in `mu²` -/
+def evens : List Rat → List Rat
+  | [] => []
+  | [a] => [a]
+  | a :: _ :: t => a :: evens t
+
 /-- evaluation of an ascending coefficient list -/
 def peval (p : List Rat) (x : Rat) : Rat := p.foldr (fun c acc => c + x * acc) 0
 
@@ -468,7 +518,9 @@ def meshF (sh : Shape) (mesh : Array Rat) (i j k : Nat) : Rat :=
   mesh.getD ((i * sh.s1 + j) * sh.s2 + k) 0
 
 /-- requests
-* `fold n i`
+* `fold n i`, `foldold n i`
+* `linspace a b num`
+* `pnmu n mu`
 * `fftfreq n`
 * `pn n x`
 * `kmu n s0 s1 s2 T assign ek em poles mesh`
@@ -487,6 +539,21 @@ def handle (args : List String) : String :=
     match parseNat? n with
     | some n => showList (fftfreq n)
     | _ => "bad-op"
+  | ["foldold", n, i] =>
+    match parseNat? n, parseNat? i with
+    | some n, some i => toString (foldOld n i)
+    | _, _ => "bad-op"
+  | ["linspace", a, b, num] =>
+    match parseRat? a, parseRat? b, parseNat? num with
+    | some a, some b, some num => showRats (linspace a b num)
+    | _, _, _ => "bad-op"
+  | ["pnmu", n, mu] =>
+    match parseNat? n, parseRat? mu with
+    | some n, some mu =>
+      match PnMu mu n with
+      | .ok v => s!"ok {showRat v}"
+      | .error f => s!"err {f}"
+    | _, _ => "bad-op"
   | ["pn", n, x] =>
     match parseNat? n, parseRat? x with
     | some n, some x =>
